@@ -11,7 +11,7 @@ use crate::multi::{MKind, MTask, MultiCase, MEM_FRONTS_MAP, MEM_FRONTS_SET};
 use crate::payload::PayloadCase;
 use crate::restart::{Base, CorruptCase, Mutation};
 use crate::rng::{mix, tag_of, Rng};
-use crate::sink::{ErrKind, EvKind, FStep, Flip, Plan, Rest, Shape, WStep, INJECTABLE};
+use crate::sink::{ErrKind, EvKind, Flip, Plan, Rest, Shape, WStep, INJECTABLE};
 
 fn rng_for(cfg: &Cfg, idx: u64) -> Rng {
     Rng::new(mix(cfg.seed, tag_of(&cfg.prop), idx))
@@ -59,7 +59,7 @@ pub fn c07(cfg: &Cfg, idx: u64, st: &mut Stats) {
     let (sweeps, _) = c07_sizes(cfg);
     let mut rng = rng_for(cfg, idx);
     if idx < sweeps {
-        let (task, _) = gen::legal_task(&mut rng, 10);
+        let (task, _) = gen::sweep_task(&mut rng, 10, 6);
         let bufcap = if rng.chance(1, 3) {
             Some(*rng.pick(&[0usize, 1, 3, 8, 17, 64, 300]))
         } else {
@@ -76,7 +76,7 @@ pub fn c07(cfg: &Cfg, idx: u64, st: &mut Stats) {
                 return;
             }
         }
-        let w = std::cmp::min(writes.len(), 400);
+        let w = std::cmp::min(writes.len(), 1000);
         for wi in 0..w {
             let len = writes[wi];
             let mut steps: Vec<WStep> = Vec::new();
@@ -102,7 +102,11 @@ pub fn c07(cfg: &Cfg, idx: u64, st: &mut Stats) {
             .or_insert(0) += 1;
     } else {
         let big = rng.chance(1, 16);
-        let (task, _) = gen::legal_task(&mut rng, if big { 400 } else { 40 });
+        let (task, _) = if rng.chance(1, 10) {
+            gen::wide_task(&mut rng, false)
+        } else {
+            gen::legal_task(&mut rng, if big { 400 } else { 40 })
+        };
         let case = BuildCase {
             task,
             bufcap: gen::bufcap(&mut rng),
@@ -142,7 +146,11 @@ pub fn c01(cfg: &Cfg, idx: u64, st: &mut Stats) {
         return;
     }
     let big = rng.chance(1, 8);
-    let (task, _) = gen::legal_task(&mut rng, if big { 400 } else { 40 });
+    let (task, _) = if rng.chance(1, 8) {
+        gen::wide_task(&mut rng, false)
+    } else {
+        gen::legal_task(&mut rng, if big { 400 } else { 40 })
+    };
     let shape = if rng.chance(1, 2) { Shape::Full } else { gen::benign_shape(&mut rng) };
     let case = BuildCase {
         task,
@@ -385,7 +393,7 @@ pub fn c11_sizes(cfg: &Cfg) -> u64 {
 
 pub fn c11(cfg: &Cfg, idx: u64, st: &mut Stats) {
     let mut rng = rng_for(cfg, idx);
-    let (task, _) = gen::legal_task(&mut rng, 12);
+    let (task, _) = gen::sweep_task(&mut rng, 12, 8);
     // three layerings: alone / with short writes / behind a BufWriter
     let layering = idx % 3;
     let base = BuildCase {
@@ -414,7 +422,7 @@ pub fn c11(cfg: &Cfg, idx: u64, st: &mut Stats) {
         return;
     }
     let evs = event_map(&dry);
-    let n_ev = std::cmp::min(evs.len(), 400);
+    let n_ev = std::cmp::min(evs.len(), 1000);
     for e in 0..n_ev {
         let (ci, is_write, req) = evs[e];
         if is_write && req == 0 {
@@ -423,29 +431,29 @@ pub fn c11(cfg: &Cfg, idx: u64, st: &mut Stats) {
         let mut kinds: Vec<Option<ErrKind>> = INJECTABLE.iter().map(|k| Some(*k)).collect();
         if is_write {
             kinds.push(None); // Ok(0)
+        } else {
+            // a flush that reports Interrupted has failed all the same
+            kinds.push(Some(ErrKind::Interrupted));
         }
         for k in kinds {
             // transient: only this call fails
             let mut c = explicit.clone();
             if is_write {
-                c.plan.writes.truncate(ci);
-                while c.plan.writes.len() < ci {
-                    c.plan.writes.push(WStep::Full);
-                }
-                c.plan.writes.push(match k {
-                    Some(k) => WStep::Err(k),
-                    None => WStep::Zero,
-                });
-                c.plan.writes.extend(explicit.plan.writes.iter().skip(ci + 1).cloned());
+                c.plan.fault_write = Some((
+                    ci,
+                    match k {
+                        Some(k) => WStep::Err(k),
+                        None => WStep::Zero,
+                    },
+                ));
             } else {
-                c.plan.flushes = vec![FStep::Ok; ci];
-                c.plan.flushes.push(FStep::Err(k.unwrap()));
+                c.plan.fault_flush = Some((ci, k.unwrap()));
             }
             if st.report("C11", &Case::Build(c)) {
                 return;
             }
             // sticky: this call and every later one fail
-            if let Some(k) = k {
+            if let Some(k) = k.filter(|k| *k != ErrKind::Interrupted) {
                 let mut c = explicit.clone();
                 c.plan.sticky = Some((e as u64, k));
                 if st.report("C11", &Case::Build(c)) {
@@ -520,7 +528,7 @@ pub fn c20(cfg: &Cfg, idx: u64, st: &mut Stats) {
     let (sweeps, _) = c20_sizes(cfg);
     let mut rng = rng_for(cfg, idx);
     if idx < sweeps {
-        let (task, _) = gen::legal_task(&mut rng, 10);
+        let (task, _) = gen::sweep_task(&mut rng, 10, 8);
         let base = BuildCase {
             task,
             bufcap: if rng.chance(1, 2) { Some(*rng.pick(&[1usize, 8, 20, 64, 300, 8192])) } else { None },
@@ -531,7 +539,7 @@ pub fn c20(cfg: &Cfg, idx: u64, st: &mut Stats) {
         let dry = run_build(&base);
         let explicit = crate::exec::explicit_build(&base, dry.sink.recorded_plan());
         let evs = event_map(&dry);
-        for e in 0..std::cmp::min(evs.len(), 500) {
+        for e in 0..std::cmp::min(evs.len(), 1000) {
             let (_, is_write, req) = evs[e];
             let mut torns = vec![0usize];
             if is_write && req > 0 {
@@ -618,8 +626,9 @@ pub fn c20(cfg: &Cfg, idx: u64, st: &mut Stats) {
 // ------------------------------------------------------------------- C08
 
 pub fn c08_sizes(cfg: &Cfg) -> (u64, u64, u64) {
-    // (exhaustive-substitution files, payload runs, sampled corruption runs)
-    (scaled(cfg, 200, 10_000), scaled(cfg, 20_000, 1_000_000), scaled(cfg, 100_000, 5_000_000))
+    // (exhaustive-substitution files, payload runs, sampled corruption runs
+    //  incl. builds through benign sinks)
+    (scaled(cfg, 200, 10_000), scaled(cfg, 20_000, 1_000_000), scaled(cfg, 120_000, 6_000_000))
 }
 
 pub fn c08(cfg: &Cfg, idx: u64, st: &mut Stats) {
@@ -734,6 +743,26 @@ pub fn c08(cfg: &Cfg, idx: u64, st: &mut Stats) {
             random: Some((shape, rng.next_u64())),
         };
         st.report("C08", &Case::Payload(case));
+        return;
+    }
+    // A(i) through benign sinks: the checksum of what a builder reports as
+    // finished must not depend on how the sink chunked the writes
+    if rng.chance(1, 6) {
+        let (task, _) = gen::sweep_task(&mut rng, 40, 8);
+        let shape = match rng.below(4) {
+            0 => Shape::Cap(*rng.pick(&[1usize, 2, 3])),
+            1 => Shape::Random { short_16: 16, intr_16: 0 },
+            2 => Shape::Storm,
+            _ => gen::benign_shape(&mut rng),
+        };
+        let case = BuildCase {
+            task,
+            bufcap: gen::bufcap(&mut rng),
+            prefill: vec![],
+            plan: Plan::clean(),
+            random: Some((shape, rng.next_u64())),
+        };
+        st.report("C08", &Case::Build(case));
         return;
     }
     // B, sampled, on larger artifacts; plus the in-flight variant
